@@ -150,7 +150,9 @@ type PEval struct {
 	Inline    func(*ssa.Function) bool // which callees to explore (default: library functions)
 	OnCall    func(ev *PEval, call *ssa.Call, callee *ssa.Function, args []AV) (AV, bool)
 	AssumeNonNil func(path string) bool // symbolic objects assumed non-nil
-	LoopOK    bool // when true, a revisited block ends the path with Unknown results instead of failing
+	Watch     func(in ssa.Instruction, q IvSet) // called for every instruction reached, with the feasible q
+	LoopOK    bool // when true, loops are tolerated: on re-entry the path continues in havoc mode (no refinement, unknown phis) and is cut with unknown results on the third visit
+	Truncated bool // set when a path was cut
 	paths     int
 	flow      *Flow
 	Err       error
@@ -160,6 +162,7 @@ type PEval struct {
 }
 
 type pstate struct {
+	havoc bool // a loop was re-entered on this path: branches are followed both ways unrefined, phis are unknown
 	q     IvSet
 	env   map[ssa.Value]AV
 	store []AV
@@ -167,7 +170,7 @@ type pstate struct {
 }
 
 func (s *pstate) fork() *pstate {
-	n := &pstate{q: s.q, env: make(map[ssa.Value]AV, len(s.env)+8), store: append([]AV(nil), s.store...), trail: append([]string(nil), s.trail...)}
+	n := &pstate{havoc: s.havoc, q: s.q, env: make(map[ssa.Value]AV, len(s.env)+8), store: append([]AV(nil), s.store...), trail: append([]string(nil), s.trail...)}
 	for k, v := range s.env {
 		n.env[k] = v
 	}
@@ -249,9 +252,10 @@ func (ev *PEval) block(s *pstate, fr *frame, b *ssa.BasicBlock, pred *ssa.BasicB
 		return
 	}
 	if start == 0 {
-		if fr.visited[b] > 0 {
+		if fr.visited[b] >= 2 || (fr.visited[b] == 1 && !ev.LoopOK) {
 			if ev.LoopOK {
 				ev.paths++
+				ev.Truncated = true
 				n := fr.fn.Signature.Results().Len()
 				k(s, make([]AV, n), false)
 				return
@@ -259,13 +263,23 @@ func (ev *PEval) block(s *pstate, fr *frame, b *ssa.BasicBlock, pred *ssa.BasicB
 			ev.fail("loop at %s in %s (region extraction needs loop-free flow in q)", b.Comment, FnKey(fr.fn))
 			return
 		}
+		if fr.visited[b] == 1 {
+			s.havoc = true
+		}
 		fr.visited[b]++
 		defer func() { fr.visited[b]-- }()
 	}
 	for idx := start; idx < len(b.Instrs); idx++ {
 		in := b.Instrs[idx]
+		if ev.Watch != nil {
+			ev.Watch(in, s.q)
+		}
 		switch x := in.(type) {
 		case *ssa.Phi:
+			if s.havoc {
+				s.env[x] = AV{}
+				continue
+			}
 			for i, p := range b.Preds {
 				if p == pred {
 					s.env[x] = ev.val(s, x.Edges[i])
@@ -274,6 +288,12 @@ func (ev *PEval) block(s *pstate, fr *frame, b *ssa.BasicBlock, pred *ssa.BasicB
 		case *ssa.If:
 			c := ev.val(s, x.Cond)
 			tb, fb := b.Succs[0], b.Succs[1]
+			if s.havoc {
+				ts := s.fork()
+				ev.block(ts, fr, tb, b, 0, k)
+				ev.block(s, fr, fb, b, 0, k)
+				return
+			}
 			if c.K == KBool {
 				if c.B {
 					ev.block(s, fr, tb, b, 0, k)
@@ -421,6 +441,9 @@ func (ev *PEval) val(s *pstate, v ssa.Value) AV {
 		case constant.Int:
 			if i, ok := constant.Int64Val(x.Value); ok {
 				return AV{K: KInt, I: i}
+			}
+			if constant.Sign(x.Value) > 0 {
+				return AV{K: KInt, I: PosInf} // above MaxInt64: only ever compared against
 			}
 		case constant.Bool:
 			return AV{K: KBool, B: constant.BoolVal(x.Value)}
@@ -821,6 +844,13 @@ func fieldName(t types.Type, i int) string {
 }
 
 func (ev *PEval) binop(op token.Token, x, y AV, t types.Type) AV {
+	if x.K == KInt && y.K == KInt && (x.I == PosInf || y.I == PosInf) {
+		switch op {
+		case token.EQL, token.NEQ, token.LSS, token.LEQ, token.GTR, token.GEQ:
+		default:
+			return AV{}
+		}
+	}
 	if x.K == KInt && y.K == KInt {
 		switch op {
 		case token.ADD:
